@@ -32,7 +32,7 @@ type Scenario struct {
 	ES    string    `json:"es"`
 }
 
-var kinds = []string{"eqInt", "eqString", "ordInt", "ordString", "contraEq", "contraOrd", "contraEqStr", "contraOrdStr", "fromEq", "fromOrd", "monoidOp", "monoidSg", "monoidStr", "monoidNested", "semigroup"}
+var kinds = []string{"eqInt", "eqString", "ordInt", "ordString", "contraEq", "contraOrd", "contraEqStr", "contraOrdStr", "contraOrdRaw", "contraEqRaw", "fromEq", "fromOrd", "monoidOp", "monoidSg", "monoidStr", "monoidNested", "semigroup"}
 
 var boundary = []int{math.MinInt, math.MinInt + 1, -1, 0, 1, math.MaxInt - 1, math.MaxInt, math.MaxInt32, math.MinInt32, 1 << 32}
 var pieces = []string{"a", "b", "ab", "A", "z", "é", "日", "\xff", "\x00", "\xc3", " ", "aa"}
@@ -203,6 +203,28 @@ func Run(sc Scenario) string {
 		got := inst.Compare(x, y)
 		if got != want3(cmp.Compare(f(x), f(y))) || len(seen) != 1 || seen[0] != (pairArgs{f(x), f(y)}) {
 			return fmt.Sprintf("ord.ContraMap.Compare(%q,%q)=%d, base saw %v; want base(%d,%d)", x, y, got, seen, f(x), f(y))
+		}
+	case "contraOrdRaw":
+		// the base is an arbitrary function into Ordering (a difference-style comparator, values outside {LT, EQ, GT} included):
+		// ContraMap gives exactly the result of the base on the projected values
+		f := projInt(sc)
+		raw := func(p, q int) ord.Ordering {
+			if sc.P%2 == 0 {
+				return ord.Ordering(p - q)
+			}
+			return ord.Ordering(sc.Table[4*mod4(p)+mod4(q)])
+		}
+		inst := ord.ContraMap[int, int]{Ord: ord.From[int](raw), ContraMap: pure.ContraMap[int, int](f)}
+		if got := inst.Compare(a, b); got != raw(f(a), f(b)) {
+			return fmt.Sprintf("ord.ContraMap.Compare(%d,%d)=%d, the base instance gives %d on the projections (%d,%d)", a, b, got, raw(f(a), f(b)), f(a), f(b))
+		}
+	case "contraEqRaw":
+		// an arbitrary (not even reflexive) base relation
+		f := projInt(sc)
+		raw := func(p, q int) bool { return sc.Table[4*mod4(p)+mod4(q)] > 0 }
+		inst := eq.ContraMap[int, int]{Eq: eq.From[int](raw), ContraMap: pure.ContraMap[int, int](f)}
+		if got := inst.Equal(a, b); got != raw(f(a), f(b)) {
+			return fmt.Sprintf("eq.ContraMap.Equal(%d,%d)=%v, the base instance gives %v on the projections (%d,%d)", a, b, got, raw(f(a), f(b)), f(a), f(b))
 		}
 	case "fromEq":
 		f := func(p, q int) bool { return sc.Table[4*mod4(p)+mod4(q)] > 0 }
